@@ -29,10 +29,14 @@ TIMEOUT = {'quick': 600, 'thorough': 2400}
 UNDECLARED = ['foo', 'bar_baz', 'colour', 'xml_id', 'font_familyy', 'Type', 'numbr', 'default_z', 'placement_', 'href',
               'lang_', 'idd']
 NSHARDS = 16
+ALL_NAMES = sorted({a[0].split(':')[-1] for t in ref.ALL for a in ref.attr_table(t)})
 
 
 def plan(tier, seed):
-    return [{'slice': i, 'cost': 1} for i in range(NSHARDS)]
+    # the two whole-list shards visit every class in one process, in opposite orders (validation state cached by
+    # whichever type is used first shows up in one of them); they probe enumerated attributes with near-miss literals
+    return [{'slice': i, 'cost': 1} for i in range(NSHARDS)] + [{'slice': 'enum-sorted', 'cost': 1},
+                                                              {'slice': 'enum-reversed', 'cost': 1}]
 
 
 def pyname(an):
@@ -242,7 +246,46 @@ def complete_element(lib, cls, t, omit=None):
     return e
 
 
+def run_enum_order(shard, tier, seed):
+    from .. import lib
+    ctx = Ctx()
+    classes = sorted(lib.CLASSES.items())
+    if shard['slice'] == 'enum-reversed':
+        classes.reverse()
+    for cn, cls in classes:
+        t = lib.xsd_type_name(cls)
+        if t not in ref.ALL:
+            continue
+        for an, at, req in ref.attr_table(t):
+            if at is None or not ref.enumeration(at) or an == 'name':
+                continue
+            good = [f for f in ref.enumeration(at) if ref.valid(at, f)][:2]
+            bad = [f for f in ref.near_miss_literals(at, 8) if not ref.valid(at, f)]
+            r = lib.call(build, lib, cls)
+            if r[0] == 'exc':
+                continue
+            e = r[1]
+            for lex in good:
+                ctx.evals += 1
+                ctx.nontriv += 1
+                if lib.call(setattr, e, pyname(an), lex)[0] == 'exc':
+                    ctx.v(_sig('valid-rejected', t, an, 'dot-order-' + shard['slice']), {'class': cn, 'attr': an, 'value': lex})
+            for lex in bad:
+                ctx.evals += 1
+                ctx.nontriv += 1
+                if lib.call(setattr, e, pyname(an), lex)[0] == 'ok':
+                    ctx.v(_sig('invalid-accepted', t, an, 'dot-order-' + shard['slice']), {'class': cn, 'attr': an, 'value': lex})
+    try:
+        os.unlink(ctx.tmp.name)
+    except OSError:
+        pass
+    return {'evaluations': ctx.evals, 'distinct_nontrivial': ctx.nontriv, 'violations': ctx.viol,
+            'samples': [{'order': shard['slice']}], 'counters': {'enum_order_probes': ctx.evals}}
+
+
 def run_shard(shard, tier, seed):
+    if isinstance(shard['slice'], str):
+        return run_enum_order(shard, tier, seed)
     from .. import lib
     ctx = Ctx()
     classes = sorted(lib.CLASSES.items())
@@ -283,6 +326,22 @@ def run_shard(shard, tier, seed):
                         if e is not None and e.attributes:
                             ctx.v(_sig('stored-after-reject', t, key, route), {'class': cn, 'attr': key, 'route': route})
                 ctx.c['undeclared_probes'] += 1
+            # every attribute name the schema declares anywhere: an undeclared one must be refused as a name
+            if t in ref.ALL:
+                local_declared = {a[0].split(':')[-1] for a in table}
+                e = lib.call(build, lib, cls)
+                if e[0] == 'ok':
+                    for an in ALL_NAMES:
+                        if an in local_declared or an == 'name':
+                            continue
+                        ctx.evals += 1
+                        rr = lib.call(setattr, e[1], an.replace('-', '_'), '@@probe@@')
+                        if rr[0] == 'ok' or not isinstance(rr[1], AttributeError):
+                            ctx.v(_sig('undeclared-accepted', t, an, 'dot-name-matrix'), {'class': cn, 'attr': an},
+                                  {'got': 'accepted' if rr[0] == 'ok' else type(rr[1]).__name__})
+                            if rr[0] == 'ok':
+                                lib.call(setattr, e[1], an.replace('-', '_'), None)
+                    ctx.c['name_matrix_rows'] += 1
             # a non-string, non-number object
             if table:
                 an = table[0][0]
